@@ -520,6 +520,13 @@ class Interp:
             finally:
                 if s.finalbody:
                     self.block(s.finalbody, env, cls)
+        elif isinstance(s, ast.With):
+            # context managers of the code under analysis are files and pools: entering yields the object itself
+            for it in s.items:
+                v = self.expr(it.context_expr, env, cls)
+                if it.optional_vars is not None:
+                    self.assign(it.optional_vars, v, env, cls)
+            self.block(s.body, env, cls)
         elif isinstance(s, (ast.Import, ast.ImportFrom, ast.Global, ast.Nonlocal)):
             pass
         else:
@@ -1441,6 +1448,7 @@ BUILTINS = {
     "enumerate": Builtin("enumerate", _b_enumerate),
     "zip": Builtin("zip", _b_zip),
     "sorted": Builtin("sorted", _b_sorted),
+    "open": Builtin("open", lambda i, a, k, t: AObj("File", {}, label=t, opaque=True)),
     "reversed": Builtin("reversed", lambda i, a, k, t: list(reversed(a[0])) if isinstance(a[0], (list, tuple)) else Opaque(f"reversed({to_text(a[0])})")),
     "ceil": Builtin("ceil", _b_ceil),
     "hex": Builtin("hex", _b_hex),
